@@ -139,7 +139,7 @@ def main():
             if o['err'] is not None:
                 continue
             checked += 1
-            polls = [u for u in o['units'] if u[0].startswith('Poll/')]
+            polls = [u for u in o['units'] if u[0][0].startswith('Poll/')]
             n = len(items)
             lens = [n] + [len(case[k][1]) for k in ('trig', 'tid') if is_list(case[k])]
             why = None
@@ -148,9 +148,13 @@ def main():
             if len(polls) != max(lens) and not any(is_list(x) for k in ('trig', 'tid') if is_list(case[k]) for x in case[k][1]):
                 why = '%d Poll units for %d channels' % (len(polls), max(lens))
             else:
+                rate_of = {'sin': 'audio', 'pan': 'audio', 'sink': 'control', 'pank': 'control', 'ir': 'control'}
                 for i, u in enumerate(polls[:max(lens)]):
                     if len(polls) == max(lens) and u[1][3] != ['S', 'ChannelList UGen [%d]' % (i % n)]:
                         why = 'channel %d polled under label %s' % (i, u[1][3])
+                    elif len(polls) == max(lens) and u[0][1] != rate_of[case['pre'][items[i % n][1]]]:
+                        why = 'channel %d (a %s-rate signal) is polled by a %s-rate Poll' % (
+                            i, rate_of[case['pre'][items[i % n][1]]], u[0][1])
             if why:
                 bad.append({'case': case, 'whole': o['units'], 'whole_units': len(polls), 'parts': [], 'parts_units': max(lens), 'why': why})
             continue
@@ -161,14 +165,14 @@ def main():
             if o['err'] is not None:
                 continue
             checked += 1
-            outs = [u for u in o['units'] if u[0] == case.get('cls', 'Out') + '/audio']
+            outs = [u for u in o['units'] if u[0][0].startswith(case.get('cls', 'Out') + '/') and u[0][1] == 'audio']
             why = None
             for u in outs:
                 if any(x == ['K', 0] for x in u[1][1:]):
                     why = 'a literal zero reaches the output unit: inputs %s' % (u[1],)
             nz = json.dumps(case['output']).count('["K", 0]') + json.dumps(case['output']).count('["F", 0]')
             if why is None and nz and '"T"' not in json.dumps(case['output']):
-                dcs = {i for i, u in enumerate(o['units']) if u[0] == 'DC/audio' and u[1] == [['K', 0]]}
+                dcs = {i for i, u in enumerate(o['units']) if u[0][0].startswith('DC/') and u[0][1] == 'audio' and u[1] == [['K', 0]]}
                 if not any(x[0] == 'U' and x[1] in dcs for u in outs for x in u[1][1:]) and outs:
                     why = 'zeros were given but no output unit reads a DC(0) silence unit'
             if why:
